@@ -72,6 +72,8 @@ package testscript
 //@   ensures result1 != nil ==> gStarted == old(gStarted)
 //@   ensures gReaped == old(gReaped)
 //@   at call (*exec.Cmd).Start#1: requires c.Dir == ts.cd && len(c.Env) == len(ts.env) + 1 && (forall K {at(c.Env,K)} :: lo(c.Env) <= K && K < lo(c.Env) + len(ts.env) ==> sameStr(at(c.Env,K), at(ts.env, lo(ts.env) + K - lo(c.Env))))
+//@   at call (*exec.Cmd).Start#1: requires len(at(c.Env, hi(c.Env)-1)) == 4 + len(ts.cd) && at(at(c.Env, hi(c.Env)-1), lo(at(c.Env, hi(c.Env)-1))) == 'P' && at(at(c.Env, hi(c.Env)-1), lo(at(c.Env, hi(c.Env)-1))+1) == 'W' && at(at(c.Env, hi(c.Env)-1), lo(at(c.Env, hi(c.Env)-1))+2) == 'D' && at(at(c.Env, hi(c.Env)-1), lo(at(c.Env, hi(c.Env)-1))+3) == '='
+//@   at call (*exec.Cmd).Start#1: requires forall Q {at(at(c.Env, hi(c.Env)-1), Q)} :: lo(at(c.Env, hi(c.Env)-1)) + 4 <= Q && Q < hi(at(c.Env, hi(c.Env)-1)) ==> at(at(c.Env, hi(c.Env)-1), Q) == at(ts.cd, lo(ts.cd) + Q - lo(at(c.Env, hi(c.Env)-1)) - 4)
 // the pty helpers of exec (copy goroutines, deferred close) start and reap no process
 //@ func exec$1
 //@   trusted
@@ -87,6 +89,8 @@ package testscript
 //@   modifies F_S_testscript_TestScript_stdin, F_S_testscript_TestScript_stdinPty, F_S_testscript_TestScript_ttyin, F_S_testscript_TestScript_ttyout, F_S_exec_Cmd_*, F_S_strings_Builder_*, F_S_strings_Reader_*, H_Str, new H_*, gStarted, gReaped, gWaitedCmd, gRecv
 //@   ensures gStarted - gReaped == old(gStarted) - old(gReaped)
 //@   at call (*exec.Cmd).Start#1: requires c.Dir == ts.cd && len(c.Env) == len(ts.env) + 1 && (forall K {at(c.Env,K)} :: lo(c.Env) <= K && K < lo(c.Env) + len(ts.env) ==> sameStr(at(c.Env,K), at(ts.env, lo(ts.env) + K - lo(c.Env))))
+//@   at call (*exec.Cmd).Start#1: requires len(at(c.Env, hi(c.Env)-1)) == 4 + len(ts.cd) && at(at(c.Env, hi(c.Env)-1), lo(at(c.Env, hi(c.Env)-1))) == 'P' && at(at(c.Env, hi(c.Env)-1), lo(at(c.Env, hi(c.Env)-1))+1) == 'W' && at(at(c.Env, hi(c.Env)-1), lo(at(c.Env, hi(c.Env)-1))+2) == 'D' && at(at(c.Env, hi(c.Env)-1), lo(at(c.Env, hi(c.Env)-1))+3) == '='
+//@   at call (*exec.Cmd).Start#1: requires forall Q {at(at(c.Env, hi(c.Env)-1), Q)} :: lo(at(c.Env, hi(c.Env)-1)) + 4 <= Q && Q < hi(at(c.Env, hi(c.Env)-1)) ==> at(at(c.Env, hi(c.Env)-1), Q) == at(ts.cd, lo(ts.cd) + Q - lo(at(c.Env, hi(c.Env)-1)) - 4)
 //@ extern github.com/rogpeppe/go-internal/internal/os/execpath.Look(file, getenv) (r, err)
 //@   pure
 //@ func (*TestScript).buildExecCmd
